@@ -1,7 +1,9 @@
+mod c07;
 mod codec;
 mod common;
 mod driver;
 mod e1;
+mod e3;
 mod engine;
 mod hostile;
 mod props;
@@ -15,7 +17,7 @@ use driver::{CheckPlan, ReplayFile};
 use engine::Engine;
 
 fn engines() -> Vec<Arc<dyn Engine>> {
-    vec![Arc::new(e1::engine::E1)]
+    vec![Arc::new(e1::engine::E1), Arc::new(e3::budget::Budget)]
 }
 
 fn env_u64(k: &str) -> Option<u64> {
@@ -38,6 +40,10 @@ fn plan_for(prop: &str, tier: &str) -> Vec<(Arc<dyn Engine>, u64)> {
             }
         }
     };
+    if prop == "C07" {
+        let n = if thorough { 600_000 } else { 20_000 };
+        v.push((Arc::new(e3::budget::Budget), (n * scale / 100).max(1)));
+    }
     if e1_runs > 0 {
         v.push((Arc::new(e1::engine::E1), (e1_runs * scale / 100).max(1)));
     }
